@@ -52,7 +52,7 @@ def validate_oracle(report):
 def conditions(tier):
     conds = []
     tl, al = (3, 2) if tier == 'quick' else (4, 3)
-    to = 170 if tier == 'quick' else 1500
+    to = 280 if tier == 'quick' else 1500
     # (a) escaping lemmas, partitioned by the first character's class so cores are used
     classes = [('amp', "s[0] == '&'"), ('lt', "s[0] == '<'"), ('gt', "s[0] == '>'"),
                ('quote', "s[0] in '\"' + \"'\""), ('ws', "s[0] in '\\t\\n'"),
